@@ -39,7 +39,7 @@ class Rule:
             if sample is not None and len(self.samples) < 3:
                 self.samples.append(sample)
             elif sample is None and len(self.samples) < 2:
-                self.samples.append('%s %s' % (key, detail) if detail else key)
+                self.samples.append(key)
         else:
             self.viol.append((key, where, detail))
 
